@@ -40,7 +40,7 @@ Proof. unfold obj_events. induction (seq 0 n) as [|j l IH]; cbn; auto. Qed.
 Theorem store_from_constructs L : forall pv vals bid m a,
   (length L <= length pv)%nat -> length vals = length L ->
   keep ctor_of (snd (fst (store_from L pv vals bid m a))) =
-    obj_addrs ntc L (fst (place_from L pv (cnts_of vals) a)) (cnts_of vals).
+    obj_addrs (ntc false) L (fst (place_from L pv (cnts_of vals) a)) (cnts_of vals).
 Proof.
   induction L as [|p L IH]; intros pv vals bid m a Hl Hv; [reflexivity|].
   destruct pv as [|pt pv]; [cbn in Hl; lia|]. destruct vals as [|f vals]; [discriminate|].
@@ -49,7 +49,7 @@ Proof.
                  (align_if (pt <? pal p) (pal p) a + Z.of_nat (length f) * psz p)
                  ltac:(cbn in Hl; lia) ltac:(cbn in Hv; lia)).
   destruct (store_from L pv vals bid _ _) as [[m2 evs2] e]. cbn [fst snd] in *.
-  rewrite keep_app, IH. f_equal. destruct (ntc p); [|reflexivity].
+  rewrite keep_app, IH. f_equal. destruct (ntc _ p); [|reflexivity].
   rewrite keep_obj_events_ctor, Nat2Z.id. reflexivity.
 Qed.
 
@@ -72,7 +72,7 @@ Qed.
    an SA-aligned address destroys exactly the objects its emplacement constructed — found
    again through the LOAD path (counts read back from memory). *)
 Theorem emplace_then_destruct_balanced L fixed t bid m a :
-  wf_plist L = true -> (forall p, In p L -> ntc p = ntd p) ->
+  wf_plist L = true -> (forall mv p, In p L -> ntc mv p = ntd p) ->
   tuple_ok L (fixed_counts L fixed) 0 t ->
   let r := store L t bid m a in
   let m' := fst (fst r) in
@@ -91,7 +91,7 @@ Proof.
     + clear - Hsame. revert Hsame. generalize (fst (place_from L (prevs L) (cnts_of t) a)). generalize (cnts_of t).
       induction L as [|p L IH]; intros cnts xs Hs; [reflexivity|].
       destruct xs as [|x xs]; [reflexivity|]. destruct cnts as [|c cnts]; [reflexivity|].
-      cbn [obj_addrs]. rewrite (Hs p ltac:(left; reflexivity)). f_equal. apply IH. intros q Hq. apply Hs. right; exact Hq.
+      cbn [obj_addrs]. rewrite (Hs false p ltac:(left; reflexivity)). f_equal. apply IH. intros mv' q Hq. apply Hs. right; exact Hq.
     + pose proof (place_chain L (cnts_of t) a) as _. 
       assert (Hl2 : length (fst (place_from L (prevs L) (cnts_of t) a)) = length L).
       { pose proof (tuple_ok_length _ _ _ _ Ht) as Htl. clear - Hlen Htl. unfold cnts_of. revert Hlen Htl. generalize (prevs L). generalize t. generalize a.
